@@ -815,6 +815,9 @@ func (c *Compiler) compileAssign(
 		} else {
 			c.emit(node, parser.OpSetFree, symbol.Index)
 		}
+	case ScopeBuiltin:
+		return c.errorf(node, "cannot assign to builtin function '%s'",
+			ident)
 	default:
 		panic(fmt.Errorf("invalid assignment variable scope: %s",
 			symbol.Scope))
